@@ -2,6 +2,7 @@
 
 mod common;
 mod dd_decode;
+mod dd_modcmp;
 mod e1;
 mod e2;
 mod e2_arp;
@@ -15,6 +16,7 @@ mod e2_sock;
 mod e2_start;
 mod e2_udp;
 mod e3;
+mod ndl;
 mod sim;
 mod rng;
 mod scenarios;
